@@ -1,28 +1,29 @@
-/* C16: instrumentation of the level-validity macro for harnesses that #include tree_builder.c /
- * blocksigner.c.  Include AFTER the libksi headers and verif_post.h, BEFORE the repository .c text.
+/* C16: observation of error exits for harnesses that #include tree_builder.c / blocksigner.c.
+ * Include AFTER the libksi headers, verif_post.h and all harness helpers, directly BEFORE the repository .c text.
  *
- * KSI_IS_VALID_TREE_LEVEL(level) (common.h) keeps its value - it is still computed by the macro text of the
- * tree under analysis, captured below in c16_valid_i / c16_valid_u before the re-definition.  Added: while
- * VERIF_expect_no_error is set (env/ctx_expect.c; set by a harness around operations which its reference
- * model says must succeed, i.e. every level is in 0..255) a FALSE result is reported as a failed check and
- * the path ends (assert-then-assume).  Reason: several validity tests in tree_builder.c leave through the
- * cleanup label without KSI_pushError, so the switch in KSI_ERR_push alone does not keep CBMC from merging
- * error and success states (see env/ctx_expect.c). */
+ * tree_builder.c / blocksigner.c leave on failure in one of two ways: `KSI_pushError(ctx, res = X, ..); goto
+ * cleanup;` or, for internal sanity tests, `res = KSI_INVALID_STATE / KSI_INVALID_ARGUMENT; goto cleanup;`
+ * without a push.  The first kind is observed in KSI_ERR_push (env/ctx_expect.c).  For the second kind the
+ * two status constants are re-defined below to the SAME values passed through c16_status(), which - while
+ * VERIF_expect_no_error is set, i.e. while the harness' reference model says the operation must succeed -
+ * reports the production of the status as a failed check and ends the path (assert-then-assume).  No
+ * condition and no value of the analysed code changes.  Reason: CBMC merges the error state and the success
+ * state at every cleanup label; after such a merge every pointer written on the success path is a guarded
+ * pointer and symbolic execution explodes (measured: chains of a 3-leaf tree > 10 min, with the observation
+ * seconds).  Soundness: a path is only cut after the assertion, so a reachable internal error while the
+ * switch is on fails the run.  The constants are used by the two files only in `res = ...` statements on error
+ * exits and in KSI_APPLY_TO_NOT_NULL's NULL arm (checked by grep; an initialiser would not compile). */
 #ifndef C16_INSTR_H_
 #define C16_INSTR_H_
 extern int VERIF_expect_no_error;
-static inline int c16_valid_i(int l) { return KSI_IS_VALID_TREE_LEVEL(l); }
-static inline int c16_valid_u(unsigned l) { return KSI_IS_VALID_TREE_LEVEL(l); }
-static int c16_expect_valid(int v) {
+enum { C16_V_INVALID_STATE = KSI_INVALID_STATE, C16_V_INVALID_ARGUMENT = KSI_INVALID_ARGUMENT };
+static int c16_status(int code) {
 	if (VERIF_expect_no_error) {
-		if (!v) {
-			CHECK(0, "C16.INSTR a tree level is found invalid although the reference keeps every level within 0..255");
-			ASSUME(0);
-		}
-		return 1;   /* == v on every path that continues (v is the 0/1 value of the macro's && expression) */
+		CHECK(0, "C16.INSTR an internal error status is produced by an operation the reference model says must succeed");
+		ASSUME(0);
 	}
-	return v;
+	return code;
 }
-#undef KSI_IS_VALID_TREE_LEVEL
-#define KSI_IS_VALID_TREE_LEVEL(level) c16_expect_valid(_Generic((level) + 0, unsigned: c16_valid_u, default: c16_valid_i)(level))
+#define KSI_INVALID_STATE c16_status(C16_V_INVALID_STATE)
+#define KSI_INVALID_ARGUMENT c16_status(C16_V_INVALID_ARGUMENT)
 #endif
